@@ -392,7 +392,7 @@ func ptBody(r *explore.Run, rep *report.R, sc string) {
 func TestCheck(t *testing.T) {
 	rep := report.New("C05", "exploration")
 	rep.Meta(
-		"Full product of: number of desired resources x per-resource (ready, apply rejected as invalid | render failure for P&T) x XR-level ready {unset,true,false} x one function condition of type {Ready,Synced,Healthy,Custom} x {True,False} x target {composite, composite+claim} (or none) x forged desired-XR status {none, status.conditions, status.claimConditionTypes} x fatal at step {none,1,2} x initial XR conditions x claim syncer; each case runs the real XR reconciler (3 reconciles) and the real claim reconciler twice over simkube, once with and once without the function-supplied conditions (differential oracle). Non-trivial: at least one desired resource or a forged condition; distinct by parameter tuple.",
+		"Full product of: number of desired resources x per-resource (ready, apply rejected as invalid | render failure for P&T) x XR-level ready {unset,true,false} x one function condition of type {Ready,Synced,Healthy,Custom} x {True,False} x target {composite, composite+claim} (or none) x forged desired-XR status {none, status.conditions, status.claimConditionTypes} x fatal at step {none,1,2} x initial XR conditions x claim syncer; each case runs the real XR reconciler (3 reconciles) and the real claim reconciler twice over simkube, once with and once without the function-supplied conditions (differential oracle). Non-trivial: at least one desired resource or a forged condition; distinct by parameter tuple. Scenario claim-cache-lag: the XR's readiness history {ready then unready, unready then ready, steady} x the claim controller's cache 0..3 XR versions behind x claim syncer; every copy of the XR the claim reconcile is given (cached read, API server answers to its writes) is recorded, and a claim status write with Ready=True requires the most recent copy to be Ready=True.",
 		[]string{"simkube models the API server; XR and claim kinds use the list types of the CRDs generated by internal/xcrd for server-side apply", "initial XR conditions never contain Ready=True or Synced=True, so a True condition after the run was reported by the run"},
 		[]string{"simkube", "structured-merge-diff (real)", "apiextensions-apiserver structural schema conversion"},
 	)
@@ -404,6 +404,7 @@ func TestCheck(t *testing.T) {
 	scs := []report.Scenario{
 		{Name: "pipeline", Bound: 0, Wrap: report.Bubble(t), Body: func(r *explore.Run) { pipelineBody(r, rep, "pipeline", maxRes) }},
 		{Name: "pt", Bound: 0, Wrap: report.Bubble(t), Body: func(r *explore.Run) { ptBody(r, rep, "pt") }},
+		{Name: "claim-cache-lag", Bound: 0, Wrap: report.Bubble(t), Body: func(r *explore.Run) { claimLagBody(r, rep, "claim-cache-lag") }},
 	}
 	rep.SelfCheck(t, scs[0], nil)
 	rep.RunScenarios(t, scs)
